@@ -108,11 +108,15 @@ class DBusClientConnection (txdbus.protocol.BasicDBusProtocol):
         for cb in self._dcCallbacks:
             cb(self, reason)
 
-        for d, timeout in self._pendingCalls.values():
+        # errbacks run user code which may issue new calls: do not iterate
+        # over the live dictionary
+        pending = list(self._pendingCalls.values())
+        self._pendingCalls = {}
+
+        for d, timeout in pending:
             if timeout:
                 timeout.cancel()
             d.errback(reason)
-        self._pendingCalls = {}
 
         self.objHandler.connectionLost(reason)
 
